@@ -399,6 +399,20 @@ CLAIMS["C13"]["text"] += (" Translator tie (harness/py2coq_hooks.py over the ins
                           "uses, the table names, the class / instance filter of the market hooks; the other registries maintained by _add_event are not part of the unit.")
 
 
+def _logger_tie():
+    import translated
+    return translated.logger_tie()
+
+
+CLAIMS["C10"]["ties"] = (_logger_tie,)
+CLAIMS["C10"]["technique"] += " + source-to-Gallina translator tie for the Logger (regenerated and re-proved every run)"
+CLAIMS["C10"]["text"] += (" Translator tie (harness/py2coq_logger.py): Log.read_and_write*, Logger.write / bulk_write / *_and_direct_process / _process and the class dispatch of "
+                          "Logger.process are REGENERATED from /repo's source on every run and coq/translated/LoggerC10Proofs.v is re-checked against the generated text: every one of "
+                          "the ten record classes (all direct subclasses of Log) has its own handler and none is refused; processing a list delivers every record to the handler of its "
+                          "class, in order, once; any script of queued writes (single or bulk) followed by a flush delivers exactly what was written, in that order, and leaves the "
+                          "queue empty - the queue discipline of the model's write / flush.")
+
+
 def _index_tie():
     import translated
     return translated.index_tie()
